@@ -861,10 +861,27 @@ func checkGooseCommentGuard(c *Ctx) {
 func checkLineReaders(c *Ctx) {
 	nReaders := 0
 	lineSplit := map[string]bool{} // reader type -> ends statements at a line suffix
+	// the StmtDecls methods and the package-local functions they call (the line loop may live in a helper)
+	type unit struct {
+		fi     *FuncInfo
+		reader string
+	}
+	var units []unit
 	c.AllFuncs(false, func(fi *FuncInfo) {
-		if fi.Pkg.PkgPath != pSqltool || fi.Decl.Name.Name != "StmtDecls" {
+		if fi.Pkg.PkgPath != pSqltool || fi.Decl.Name.Name != "StmtDecls" || fi.Decl.Body == nil {
 			return
 		}
+		units = append(units, unit{fi, recvName(fi.Decl)})
+		for _, call := range callsIn(fi.Decl.Body, true) {
+			if fn := calleeOf(fi.Info(), call); fn != nil && fn.Pkg() != nil && fn.Pkg().Path() == pSqltool {
+				if hf := c.FuncInfoOf(fn); hf != nil && hf.Decl.Body != nil && hf.Decl != fi.Decl && hf.Decl.Name.Name != "StmtDecls" {
+					units = append(units, unit{hf, recvName(fi.Decl)})
+				}
+			}
+		}
+	})
+	for _, u := range units {
+		fi, readerType := u.fi, u.reader
 		info := fi.Info()
 		// variables defined from (*bufio.Scanner).Text()
 		lineDefs := map[types.Object]ast.Node{}
@@ -883,7 +900,7 @@ func checkLineReaders(c *Ctx) {
 			return true
 		})
 		if len(lineDefs) == 0 {
-			return
+			continue
 		}
 		nReaders++
 		c.funcs[fi.Name] = true
@@ -967,13 +984,13 @@ func checkLineReaders(c *Ctx) {
 			for _, fct := range impliedFacts(ifs.Cond, true) {
 				if call, isCall := fct.expr.(*ast.CallExpr); isCall && fct.val {
 					if fn := calleeOf(info, call); fn != nil && fn.Pkg() != nil && fn.Pkg().Path() == "strings" && fn.Name() == "HasSuffix" {
-						lineSplit[recvName(fi.Decl)] = true
+						lineSplit[readerType] = true
 					}
 				}
 			}
 			return true
 		})
-	})
+	}
 	if nReaders < 2 {
 		c.Unresolved("R07h", "line-rebuilding readers in sql/sqltool (expected GooseFile and DBMateFile)")
 	}
